@@ -9,3 +9,48 @@ def check_route(ctx: Ctx, rule: str, ops=("enqueue", "requeue", "reject")) -> No
 
     route_rules(ctx, rule, ops)
     helper_siblings(ctx, rule)
+
+
+# ----------------------------------------------------------------------------- whole durations
+_COMPONENTS = ("seconds", "microseconds")
+
+
+def _component_reads(fn_node) -> dict[str, set[str]]:
+    """base expression text -> timedelta component attributes read from it (x.seconds, x.microseconds, x.days)."""
+    import ast
+
+    out: dict[str, set[str]] = {}
+    arith: set[int] = set()  # attribute nodes that take part in arithmetic (a `.days` only compared with 0 adds nothing to the amount)
+    for b in ast.walk(fn_node):
+        if isinstance(b, (ast.BinOp, ast.AugAssign)):
+            for a in ast.walk(b):
+                if isinstance(a, ast.Attribute):
+                    arith.add(id(a))
+    for a in ast.walk(fn_node):
+        if isinstance(a, ast.Attribute) and isinstance(a.ctx, ast.Load) and a.attr in _COMPONENTS + ("days",):
+            if a.attr == "days" and id(a) not in arith:
+                continue
+            out.setdefault(ast.unparse(a.value), set()).add(a.attr)
+    return out
+
+
+def whole_duration_rule(ctx: Ctx, rule: str) -> None:
+    """A duration read through timedelta.seconds / .microseconds without .days silently drops whole days (delays, periods,
+    time-to-live of a day or more shrink to their sub-day remainder). Every such read in repid must be paired with a .days read of the same value."""
+    import ast
+
+    # keep the detector honest: it must recognise the lossy idiom in a tiny positive example on every run
+    probe = ast.parse("def f(td):\n    return td.seconds * 1000 + td.microseconds // 1000\n").body[0]
+    ctx.require(_component_reads(probe) == {"td": {"seconds", "microseconds"}}, "whole-duration detector does not recognise its positive example")
+    n = 0
+    for fn in ctx.prog.iter_functions():
+        n += 1
+        for base, comps in sorted(_component_reads(fn.node).items()):
+            if comps & set(_COMPONENTS) and "days" not in comps:
+                where = next(a for a in ast.walk(fn.node) if isinstance(a, ast.Attribute) and a.attr in _COMPONENTS and ast.unparse(a.value) == base)
+                ctx.fail(rule, fn, f"{base}.{'/'.join(sorted(comps))} without {base}.days",
+                         f"{fn.short()} reads {', '.join(base + '.' + c for c in sorted(comps))} but never {base}.days: timedelta.seconds is only the sub-day remainder, "
+                         "so a delay / period / time-to-live of one day or more loses its whole days (a message deferred by 3 days 1 hour becomes due after 1 hour)",
+                         node=where, instance=f"{fn.short()}: whole duration of {base}")
+    ctx.floor(rule, n, 100, "functions scanned for timedelta component reads")
+    ctx.ok(rule, "durations are never taken from timedelta.seconds alone", f"{n} functions scanned, no sub-day-remainder read without the days")
